@@ -198,6 +198,23 @@ def run(ctx):
             % (what, R["behaviours"], R["requests"], R.get("twin_runs", 0), R.get("twin_accepted", 0), R.get("delivered", 0)))
     ctx.cov["exhaustive"] = True
 
+    # 3b. /config: sequences of lookupd address lists (the option is applied by the lookup loop, outside the handlers)
+    for i in range(2 if quick else 12):
+        rep = os.path.join(ctx.scratch, "rep-cfgseq-%d.json" % i)
+        rc, out, err = ctx.run_harness(["cfgseq", "--report", rep, "--scratch", ctx.scratch, "--seed", ctx.seed * 100 + i,
+                                        "--rounds", 60], name="api10", timeout=600)
+        if not os.path.exists(rep):
+            if ("panic:" in err or "fatal error:" in err) and "nsqio/nsq/nsqd" in err:
+                path = ctx.save_replay("crash-cfgseq", {"stderr": err[-20000:], "seed": ctx.seed * 100 + i})
+                ctx.violation("nsqd crashed (panic outside the HTTP handlers) during a sequence of PUT /config/nsqlookupd_tcp_addresses "
+                              "requests, each of which had been answered 200:\n%s" % err[-1500:], path, key="daemon-crash cfgseq")
+                break
+            raise Inconclusive("cfgseq failed (rc=%s): %s" % (rc, (out + err)[-1500:]))
+        R = json.load(open(rep))
+        ctx.cov["evaluations"] += R["requests"]
+        for v in R.get("violations") or []:
+            ctx.violation("[cfgseq] " + v["what"], ctx.save_replay("cfgseq", v), key=v["key"])
+
     # 4. binding B: random request traces of the real nsqd, validated by TLC.
     #    A trace stops being checkable at the first rejected step; classes that binding A already reported in this
     #    run are therefore not generated again here.
